@@ -405,3 +405,12 @@ Proof. intros c v H1 H2. unfold check_option. now rewrite H1, H2. Qed.
 Lemma gen_options_raise_VE : rejected_with opt_return = ValueError /\ rejected_with opt_heuristic = ValueError
                              /\ accepted opt_return = ["dual"; "primal"].
 Proof. repeat split. Qed.
+
+(** option dispatches of the primitive steps (generated): the else branch raises ValueError and no `return`
+    precedes the dispatch, so an invalid literal cannot be accepted on any path *)
+Definition step_dispatch_ok (d : string * string * option_check) : bool :=
+  exn_eqb (rejected_with (snd d)) ValueError && checked_before_solve (snd d).
+Lemma gen_step_dispatches :
+  map (fun d => snd (fst d)) step_option_dispatches = ["inexact_gradient_step:notion"; "inexact_proximal_step:opt"]
+  /\ forallb step_dispatch_ok step_option_dispatches = true.
+Proof. split; [reflexivity|vm_compute; reflexivity]. Qed.
